@@ -62,6 +62,7 @@ structure Resp where
 /-- the part of the downStream state filters and their handlers touch -/
 structure FState where
   cursor : Nat := 0                 -- receiverFiltersIndex
+  cphase : RPhase := .BeforeRoute   -- receiverFiltersIndexPhase
   scursor : Nat := 0                -- senderFiltersIndex
   again : Nat := InitPhase          -- receiverFiltersAgainPhase
   direct : Bool := false            -- directResponse
@@ -115,11 +116,15 @@ def recvLoop (p : RPhase) : List RFilter → Nat → FState → FState × List I
       match recvSwitch v.status with
       | .next => let (s', l) := recvLoop p rest (idx + 1) s; (s', (idx, v) :: l)
       | .resetReturn => ({ s with cursor := 0 }, [(idx, v)])
-      | .keepReturn => ({ s with cursor := idx }, [(idx, v)])
+      | .keepReturn => ({ s with cursor := idx, cphase := if keepRecordsPhase then p else s.cphase }, [(idx, v)])
+
+/-- where a pass of phase `p` starts: the regenerated guard in front of the loop (the kept cursor only resumes a pass of
+the phase it was kept in) -/
+def startOf (s : FState) (p : RPhase) : Nat := recvStart s.cursor (s.cphase == p)
 
 /-- RunReceiverFilter(phase): state after, invocations made -/
 def runRecv (chain : List RFilter) (p : RPhase) (s : FState) : FState × List Inv :=
-  recvLoop p (chain.drop s.cursor) s.cursor s
+  recvLoop p (chain.drop (startOf s p)) (startOf s p) s
 
 def sendLoop : List SFilter → Nat → FState → FState × List SInv
   | [], _, s => ({ s with scursor := 0 }, [])
